@@ -5,7 +5,8 @@ TECH = "contract-based deductive verification: contracts as //@ comments on the 
 claimed = {
  "C01": ('Proved for all inputs, precisions, modes, signs and aliasings: round() returns RoundSpec (the arithmetic definition of rounding, written from the property statement) of its input mantissa and leaves a canonical value (19-way case split, no assumed clause); Add/Sub return RoundSpec of the exact sum/difference, Mul of the exact product (via the assumed dec.mul/sqr value contract), Quo of the Euclidean quotient with sticky remainder and enough digits (ghost witnesses, DESIGN.md 10.3); Set/SetPrec/Neg/Abs likewise; under/overflow to +-0/+-Inf; index/nil/frame safety of the whole cone.',
          'assumed: dec.mul/sqr/div value contracts (validated by bounded execution vs math/big, evidence.coverage.bounded); one paper step for Quo (DESIGN.md 10.3); operand size bounds (len <= 10^7 words, exponent gap <= 10^9)'),
- "C02": ("Proved: acc component of RoundSpec for Set/SetPrec/setExpAndRound, under/overflow accuracy, Exact on cancellation and special values, setters SetInt64/SetUint64/NewDecimal/SetMantExp range clauses.", "same assumed clauses as C01"),
+ "C02": ('Proved: acc component of RoundSpec for Set/SetPrec/setExpAndRound and every arithmetic value clause (Add, Sub, Mul, Quo, FMA), under/overflow accuracy, Exact on cancellation and special values, and for the integer setters SetInt64/SetUint64/NewDecimal/SetInt (value clauses: roundspec includes the accuracy), SetMantExp range clauses, GobDecode into a non-zero-precision receiver.',
+         'same assumed clauses as C01; SetRat, string setters not covered'),
  "C03": ("Proved for every aliasing of z with x, y, u: the exact product (ghost gMp*10^gqp, tied to Mx*My by ensures[prod]) plus u is rounded once (fmaspec = RoundSpec of the exact sum/difference), the u == 0 shortcut equals Mul, special-value table, zero-sum sign rule, ErrNaN iff invalid, operands unchanged, validity. Domain: requires[prodrange] (product exponent inside the int32 range); outside it FMA is wrong - an open known finding kept visible by a bounded run.", "requires[prodrange], requires[range] size bounds; Add/umul contracts"),
  "C04": ('Proved: IEEE special-value tables of Add/Sub/Mul/Quo/FMA/Sqrt/Set/Neg/Abs/SetInf, `panics ErrNaN iff invalid operation`, receiver valid on the exceptional exit, and unreachability of every other panic site (index, slice, nil, division, explicit panic) in the functions under contract (kernels incl. the verified assembly, dec layer, Decimal arithmetic, setters, Gob, conversions to integers).',
          'functions not under contract (formatting, parsing, Float conversions, Karatsuba/division internals, sqrtInverse) are not covered by the no-other-panic half'),
@@ -19,11 +20,11 @@ claimed = {
  "C09": ("Proved: precision rule (a receiver with precision 0 takes the operands' maximum, otherwise keeps its own), mode unchanged, operands unchanged (all fields and mantissa words) for every operation under contract (arithmetic, FMA, Sqrt, setters, SetInt, GobDecode), all aliasings.",
          'operations not under contract: SetRat, SetFloat*, SetString/Parse'),
  "C10": ("Corollary: every result-determining postcondition (C01/C02/C03 clauses) is proved with pointers, slice headers, stale buffer contents and the receiver's previous value unconstrained, so results are functions of operand values, precision and mode only.", "same assumed clauses as C01"),
- "C14": ('Proved: Int64/Uint64 return the integer part gT of |x| (gT = floor(M/10^d) stated without division through the ghost remainder of dec.shr, or M*10^k) with the documented saturation at the type bounds, 0/Above for negatives (Uint64), the special values, and accuracy Exact iff MinPrec <= exp where MinPrec is 19L minus the number of trailing zero digits (word-level characterisation tz); IsInt and MinPrec likewise; toUint64 exact or overflow; SetInt64/SetUint64/NewDecimal/setBits64: sign, zero, precision, saturation when the exponent leaves the range, no wrap of the int64 exponent sum, validity; SetInt: precision rule, mode, sign, canonical result over assumed contracts of setNat and the math/big accessors. Not machine-checked: the step from `trailing zero digits >= d` to `remainder == 0` (divisibility of M by 10^d). The values produced by Int/Rat/SetInt/SetRat (base conversion through math/big) are checked by BOUNDED execution only (big-conversions, evidence.coverage.bounded).',
-         'one paper step (tz >= d iff remainder 0); math/big based conversions: values bounded only'),
+ "C14": ("Proved: Int64/Uint64 return the integer part gT of |x| (gT = floor(M/10^d) stated without division through the ghost remainder of dec.shr, or M*10^k) with the documented saturation at the type bounds, 0/Above for negatives (Uint64), the special values, and accuracy Exact iff MinPrec <= exp where MinPrec is 19L minus the number of trailing zero digits (word-level characterisation tz); IsInt and MinPrec likewise; toUint64 exact or overflow. SetInt64/SetUint64/NewDecimal/setBits64 store the argument rounded once: roundspec(z, |x|*10^gs, gL, exp + 19*gL - gs) with the normalisation witnesses gL, gs pinned by ensures[norm] (exact when the precision allows, precision 0 becomes DefaultDecimalPrec), sign, zero, saturation when the exponent leaves the range, no wrap of the int64 exponent sum, validity. SetInt stores |x| rounded once as well (same clause over uf_abs(x) = the value of x.Bits() in base 2^64): setNat (radix conversion by repeated divWVW) is verified against V(result) + gR*B^len(z) == V2(x), divWVW against long division in base 2^64. Not machine-checked: the step from `trailing zero digits >= d` to `remainder == 0` (divisibility of M by 10^d); the two assumed clauses of setNat (gR == 0 and the length bound: the destination sized by a float64 estimate is long enough); math/big's BitLen/Sign/Bits as uninterpreted functions of the argument. The values produced by Int/Rat/SetRat (decToNat, math/big arithmetic) are checked by BOUNDED execution only (big-conversions, evidence.coverage.bounded).",
+         'one paper step (tz >= d iff remainder 0); setNat.ensures[complete], [size] assumed; math/big accessors assumed; Int/Rat/SetRat values bounded only'),
  "C16": ("Proved: ucmp (digit-wise comparison with zero padding) returns the order of the exact magnitudes (loop invariants on the compared prefixes, lifted to values with V_eq_shift/V_pos/V_zero and explicit product facts); different exponents decide by normalisation; Cmp is the sign of x-y over {-Inf, finite, 0, +Inf}; ord/Sign/Signbit/IsZero/IsInf consistent. Antisymmetry and transitivity follow from `Cmp == sign(x-y)`; they are not separate obligations.", "operand size bounds only"),
- "C17": ("Proved: GobDecode is total on arbitrary bytes (every index/slice/length obligation), returns an error with the receiver's scalars untouched or leaves valid(z) (canonical form: words below the base, normalized, fits the precision, trailing digits clear); a receiver with non-zero precision keeps precision and mode; empty input gives the zero value; GobEncode never panics on a valid Decimal, does not modify it, and writes version, header byte, precision and exponent bytes as specified; lemma gob_header: unpack(pack(mode, acc, form, sign)) is the identity, so the attribute round trip follows from the two contracts. Not covered: the mantissa bytes round trip (dec.bytes/setBytes are proved memory-safe and length-correct only; bigEndianWord assumed).",
-         "bigEndianWord assumed; mantissa byte values not specified; SetPrec contract for the rounding into a non-zero-precision receiver"),
+ "C17": ("Proved: GobDecode is total on arbitrary bytes (every index/slice/length obligation), returns an error with the receiver's scalars untouched or leaves valid(z) (canonical form); a receiver with non-zero precision keeps precision and mode and gets the transmitted value rounded (rounded/kept clauses); empty input gives the zero value; GobEncode never panics on a valid Decimal, does not modify it, and writes version, header byte, precision, exponent and the mantissa words big-endian (dec.bytes proved byte by byte; bigEndianWord verified; dec.setBytes reads the same layout back). GobDecode accepts every byte string of the shape GobEncode produces (ensures[accepts] over gobwf). The round trip itself is the contract of the hook verifGobRoundTrip (hooks_verif.go, build tag verif): GobEncode followed by GobDecode into a zero-value Decimal returns no error and reproduces precision, mode, accuracy, form, sign, exponent and every mantissa word - proved from the contracts of the two methods.",
+         'SetPrec contract for the rounding into a non-zero-precision receiver; the round trip is stated for mantissas up to 9*10^7 words'),
  "C18": ("Proved sequentially: write frame of every function under contract is the receiver's fields and its own (or fresh) mantissa array; operands unchanged; results never alias an operand buffer. Race freedom then follows from the Go memory model (meta-argument, not machine-checked).", "sync.Pool exclusivity; Go memory model; functions not under contract"),
  "C19": ("Proved: every Context method: latched error => receiver untouched; NaN => recorded, no panic; otherwise result has the context's precision and mode; deferred handler re-panics every non-ErrNaN value; Err returns and clears.", "Decimal-layer contracts of the wrapped operations"),
  "C20": ('Proved: SetBitsExp (sign, zero, exactness, saturation, no int64 wrap), BitsExp, MantExp (incl. the buffer clause), SetMantExp (value preserved, zero/inf exactly when the exponent sum leaves the range).',
@@ -55,7 +56,7 @@ m = {
  "setup_cmd": "cd engine && GOFLAGS=-mod=vendor GOPROXY=off GOSUMDB=off GOTOOLCHAIN=local go build -o ../bin/dvc .",
  "hooks": {
   "guard": "verif",
-  "enable": "the hooks are comment-only files with //go:build verif (contracts_verif.go, contracts_decimal_verif.go, context/contracts_verif.go); the verifier loads /repo with -tags verif",
+  "enable": "files with //go:build verif: the comment-only contract files contracts_verif.go, contracts_decimal_verif.go, context/contracts_verif.go, and hooks_verif.go (one function, verifGobRoundTrip, composing GobEncode and GobDecode so that the round trip is a contract); the verifier loads /repo with -tags verif",
   "baseline_off_cmd": "cd /repo && go build ./... && go test -vet=off -count=1 ./...",
   "source_commits": HOOKS,
   "add_only": True,
